@@ -399,6 +399,88 @@ impl OpSource for Gen {
                 return self.flat.pop_front();
             }
         }
+        // scenario: the adoption matrix. Build, while the collector sleeps, a holder P (kept by the root) that
+        // refers only WEAKLY to X, which owns a private child Y; mark the arena completely (P black, X weakly
+        // marked, Y white); upgrade X and let P adopt it through one of the documented paths; finish the cycle
+        // twice; read X and Y back through P.
+        if v.in_cb.is_none() && self.emitted < self.prof.len && self.rng.chance(1, 14) {
+            let alive: Vec<u8> = (0..NARENAS as u8).filter(|x| v.arenas[*x as usize]).collect();
+            let free_h: Vec<u8> = (0..NHANDLES as u8).filter(|h| v.handles[*h as usize].is_none()).collect();
+            if !alive.is_empty() {
+                let a = self.rng.pick(&alive);
+                let rs = self.rng.below(NROOT as u64) as u8;
+                let kx = self.rng.pick(&[Kind::Node, Kind::Node, Kind::Struct, Kind::Lock]);
+                let ky = self.rng.pick(&[Kind::Leaf, Kind::Node, Kind::Struct]);
+                let pk = self.rng.pick(&[Kind::Node, Kind::Node, Kind::Struct]);
+                let mut seq = vec![
+                    Op::Collect(a, How::FinishCycle, None),
+                    Op::Begin(a, CbKind::MutRoot),
+                    Op::M(MOp::Alloc(0, pk, 2, 1)), Op::M(MOp::RootSet(rs, Some(0))),
+                    Op::M(MOp::Alloc(1, kx, 1, 0)), Op::M(MOp::Alloc(2, ky, 1, 0)), Op::M(MOp::Store(1, 0, Some(2))),
+                    Op::M(MOp::Downgrade(0, 1)), Op::M(MOp::StoreW(0, 0, Some(0))),
+                    Op::End,
+                ];
+                // marking: completely, or in increments that stop somewhere in the middle
+                match self.rng.below(3) {
+                    0 => seq.push(Op::Collect(a, How::FinishMarking, None)),
+                    1 => { seq.push(Op::Adjust(a, Rat(3, 1))); seq.push(Op::Collect(a, How::MarkDebt, None)); seq.push(Op::Collect(a, How::FinishMarking, None)); }
+                    _ => { seq.push(Op::Adjust(a, Rat(1000, 1))); seq.push(Op::Collect(a, How::MarkDebt, None)); }
+                }
+                seq.extend([Op::Begin(a, CbKind::Mutate), Op::M(MOp::LoadRoot(0, rs)), Op::M(MOp::LoadW(1, 0, 0)), Op::M(MOp::Upgrade(2, 1))]);
+                let variant = self.rng.below(7);
+                match variant {
+                    0 => seq.push(Op::M(MOp::Store(0, 1, Some(2)))),
+                    1 => { seq.push(Op::M(MOp::BarB(0, Some(2)))); seq.push(Op::M(MOp::RawStore(0, 1, 2))); }
+                    2 => { seq.push(Op::M(MOp::BarB(0, None))); seq.push(Op::M(MOp::RawStore(0, 1, 2))); }
+                    3 => { seq.push(Op::M(MOp::BarF(Some(0), 2))); seq.push(Op::M(MOp::RawStore(0, 1, 2))); }
+                    4 => { seq.push(Op::M(MOp::BarF(None, 2))); seq.push(Op::M(MOp::RawStore(0, 1, 2))); }
+                    5 if !free_h.is_empty() => {
+                        // through a DynamicRootSet held by P
+                        seq.push(Op::M(MOp::Alloc(3, Kind::Set, 0, 0)));
+                        seq.push(Op::M(MOp::Store(0, 1, Some(3))));
+                        seq.push(Op::M(MOp::Stash(free_h[0], 3, 2)));
+                    }
+                    _ => { seq.push(Op::M(MOp::Store(0, 0, Some(2)))); }
+                }
+                seq.push(Op::End);
+                seq.extend([
+                    Op::Collect(a, How::FinishCycle, None), Op::Collect(a, How::FinishCycle, None),
+                    Op::Begin(a, CbKind::Mutate), Op::M(MOp::LoadRoot(0, rs)), Op::M(MOp::Load(1, 0, 1)), Op::M(MOp::Load(2, 1, 0)),
+                    Op::M(MOp::Load(3, 0, 0)), Op::M(MOp::Load(4, 3, 0)), Op::End,
+                ]);
+                self.flat.extend(seq.iter().copied());
+                return self.flat.pop_front();
+            }
+        }
+        // scenario: barriers while sweeping. With the arena in the Sweep phase and a marked, not yet swept holder
+        // P, every barrier kind is issued on (P, fresh object): all of them must be no-ops; the fresh object is
+        // then dropped from all registers and must be reclaimed by two full cycles
+        if v.in_cb.is_none() && self.emitted < self.prof.len && self.rng.chance(1, 22) {
+            let alive: Vec<u8> = (0..NARENAS as u8).filter(|x| v.arenas[*x as usize]).collect();
+            if !alive.is_empty() {
+                let a = self.rng.pick(&alive);
+                let rs = self.rng.below(NROOT as u64) as u8;
+                let mut seq = vec![
+                    Op::Collect(a, How::FinishCycle, None),
+                    Op::Begin(a, CbKind::MutRoot),
+                    Op::M(MOp::Alloc(0, Kind::Node, 2, 1)), Op::M(MOp::RootSet(rs, Some(0))), Op::End,
+                    Op::StartSweep(a, true),
+                    Op::Begin(a, CbKind::Mutate), Op::M(MOp::LoadRoot(0, rs)),
+                    Op::M(MOp::Alloc(2, self.rng.pick(&[Kind::Node, Kind::Leaf, Kind::Struct]), 1, 0)), Op::M(MOp::Downgrade(3, 2)),
+                ];
+                match self.rng.below(6) {
+                    0 => seq.push(Op::M(MOp::BarF(Some(0), 2))),
+                    1 => seq.push(Op::M(MOp::BarF(None, 2))),
+                    2 => seq.push(Op::M(MOp::BarB(0, Some(2)))),
+                    3 => seq.push(Op::M(MOp::BarFW(Some(0), 3))),
+                    4 => seq.push(Op::M(MOp::BarFW(None, 3))),
+                    _ => seq.push(Op::M(MOp::BarBW(0, 3))),
+                }
+                seq.extend([Op::End, Op::Collect(a, How::FinishCycle, None), Op::Collect(a, How::FinishCycle, None)]);
+                self.flat.extend(seq.iter().copied());
+                return self.flat.pop_front();
+            }
+        }
         // scenario: finalization without mutation. Finish the running cycle, mark atomically, and in the
         // finalize callback probe -- with non-mutating operations only -- the weakly held objects of the root,
         // their children and weak pointers found INSIDE dead objects or freshly made from dead strong pointers:
